@@ -15,6 +15,7 @@ from ..common import Check, Outcome, Snap, subscribe, subscribe2, bootstrap
 bootstrap()
 import rxsci.framing.line as line                      # noqa: E402
 import rxsci.framing.length_prefix as lp               # noqa: E402
+from ..progs import call                                # noqa: E402  (positional / keyword calling conventions)
 
 LINE_ALPHA = ['', 'a', 'bc', '\x00', '\r', '\x03\x00', 'é', '\x00\x00\x00\x01', ' ']
 LP_ALPHA = [b'', b'a', b'\n', b'\x00', b'\x01\x00', b'\x00\x00\x00\x00', b'xy\n', b'\xff']
@@ -200,8 +201,8 @@ class C15(Check):
             if kind == 'line':
                 self._ops[cfgkey] = (line.frame(), line.unframe())
             else:
-                self._ops[cfgkey] = (lp.frame(prefix_size=case['prefix'], byteorder=case['byteorder']),
-                                     lp.unframe(prefix_size=case['prefix'], byteorder=case['byteorder']))
+                self._ops[cfgkey] = (call(lp.frame, [('prefix_size', case['prefix']), ('byteorder', case['byteorder'])]),
+                                     call(lp.unframe, [('prefix_size', case['prefix']), ('byteorder', case['byteorder'])]))
         fr, un = self._ops[cfgkey]
         if kind == 'line':
             out.tags.append('line')
